@@ -1,7 +1,7 @@
 """C18 — parameter-sweep setters change exactly the named configuration field.
 
 S2  tools/gen/sweep.py -> Gen/Sweep.v (records, the 25 setter closures executed symbolically, configuration view, Steps2D, shape pins)
-S3  Props/C18.v over the generated table against the hand-pinned Spec/SweepPaths.v; Findings/C18_*.v built separately (never obligations)
+S3  Props/C18.v over the generated table against the hand-pinned Spec/SweepPaths.v
 S4  correspondence: generated setters run in Coq on the harness' base states (exact rationals) vs the state Rust produced; grid points;
     accept / reject decisions of get_setter by vm_compute
 S5  property oracle on SPDC::as_config before / after, unknown paths, sweep order / values / spectrum values
@@ -49,9 +49,21 @@ def round4(x):
     return r if x >= 0 else -r
 
 
+def same_cfg_value(x, y):
+    """configuration values agree: numbers to 1e-9 relative (the view keeps 4 decimals; bit-exactness is not part of the property), text exactly"""
+    if x == y:
+        return True
+    if x is None or y is None or ("n" in x) != ("n" in y):
+        return False
+    if "n" in x:
+        a, b = fh(x["n"]), fh(y["n"])
+        return a == b or abs(a - b) <= 1e-9 * max(1.0, abs(a), abs(b))
+    return x["t"] == y["t"]
+
+
 def cfg_diff(before, after):
     keys = sorted(set(before) | set(after))
-    return {k: (cval(before.get(k)), cval(after.get(k))) for k in keys if before.get(k) != after.get(k)}
+    return {k: (cval(before.get(k)), cval(after.get(k))) for k in keys if not same_cfg_value(before.get(k), after.get(k))}
 
 
 def expected_shown(path, v):
@@ -115,7 +127,7 @@ def oracle_set(ctx, o):
         if not (fh(pa["period_m"]) > 0) or pa["sign"] != o["computed_sign"]:
             ctx.violation("S5", f"{call}: stored period {fh(pa['period_m'])!r} m with sign {pa['sign']}; expected a positive magnitude and the automatically derived sign {o['computed_sign']}",
                           {"kind": "poling_sign", "path": path}, rep)
-        if poled and o["raw_before"]["pp"]["apodization"] != pa["apodization"]:
+        if poled and json.dumps(o["raw_before"]["pp"]["apodization"], sort_keys=True) != json.dumps(pa["apodization"], sort_keys=True):
             ctx.violation("S5", f"{call}: the apodization changed", {"kind": "frame", "path": path}, rep)
         return
     shown = cval(after.get(key))
@@ -151,7 +163,7 @@ def oracle_sweep(ctx, o):
     ctx.count(f"sweep:{nx}x{ny}")
     base = {"base": o["base"], "first": p1, "second": p2, "first_range": r1, "second_range": r2, "nx": nx, "ny": ny}
     call = f"SPDCIter::try_new(<{o['base']}>, {p1!r}, {p2!r}, Steps2D(({r1[0]}, {r1[1]}, {nx}), ({r2[0]}, {r2[1]}, {ny})))"
-    if o["count"] != nx * ny or (o["with_jsi"] and o["jsi_count"] != nx * ny):
+    if o["count"] != nx * ny or (o["with_jsi"] and o["jsi_count"] != nx * ny) or (o.get("centre") is not None and o["norm_count"] != nx * ny):
         ctx.violation("S5", f"{call} yields {o['count']} setups ({o['jsi_count']} spectrum values), expected nx*ny = {nx*ny}", {"kind": "sweep_count", "path": p1}, base)
         return
     for it in o["items"]:
@@ -181,13 +193,21 @@ def oracle_sweep(ctx, o):
                                       {"kind": "poling_unpoled", "path": p}, rep)
                 elif not isinstance(shown, float) or abs(shown - w) > 0.51e-4:
                     ctx.violation("S5", f"{call}: setup {j} shows {key} = {shown!r}, expected {w!r}", {"kind": "sweep_value", "path": p}, rep)
-        if it["indiv_cfg"] is None or cfg != it["indiv_cfg"] or not it["identical"]:
+        if not it["identical"]:
+            ctx.count("sweep:not_bit_identical_to_individual")
+        if it["indiv_cfg"] is None or cfg_diff(it["indiv_cfg"], cfg):
             ctx.violation("S5", f"{call}: setup {j} differs from the setup constructed individually with ({v1!r}, {v2!r}): "
                           f"{cfg_diff(it['indiv_cfg'] or {}, cfg)}", {"kind": "sweep_individual", "path": p1}, rep)
         if o["with_jsi"]:
             a, b = fh(it["jsi"]), fh(it["indiv_jsi"])
             if not (a == b or abs(a - b) <= 1e-12 * max(abs(a), abs(b))):
                 ctx.violation("S5", f"{call}: spectrum value {j} = {a!r}, the individually constructed setup gives {b!r}", {"kind": "sweep_jsi", "path": p1}, dict(rep, swept=a, individual=b))
+            if o.get("centre") is not None and it.get("jsi_norm") is not None:
+                c, an = fh(o["centre"]), fh(it["jsi_norm"])
+                want = b / c if c != 0 else float("nan")
+                if not (an == want or abs(an - want) <= 1e-10 * max(abs(an), abs(want))):
+                    ctx.violation("S5", f"{call}: normalised spectrum value {j} = {an!r}; the individually constructed setup gives {b!r} and the optimised base {c!r}, ratio {want!r}",
+                                  {"kind": "sweep_jsi_normalized", "path": p1}, dict(rep, swept_normalized=an, individual=b, centre=c))
 
 
 # ------------------------------------------------------------------------------------------------ S4 correspondence
@@ -342,10 +362,6 @@ def correspondence(ctx, obs, label, limit=None):
 
 
 # ------------------------------------------------------------------------------------------------ pipeline
-FINDINGS = {"Findings/C18_frequency_thz.vo": "F8 (frequency_thz setters use 1e12 rad/s)",
-            "Findings/C18_poling_unpoled.vo": "poling-period setter does nothing on an unpoled base"}
-
-
 def run(ctx):
     binp = build_harness(ctx)
     msgs, spans = regen(ctx, ["sweep", "poling"])
@@ -355,15 +371,6 @@ def run(ctx):
     proved = False
     if not msgs:
         proved = prove(ctx, "C18", extra_targets=["Proofs/C18_tac.vo"])
-        # witnesses of known defects: outside the obligations; when one stops compiling the defect no longer reproduces in the model
-        saved = ctx.cov["checker_cmd"]
-        for tgt, what in FINDINGS.items():
-            ok, fails, _ = coq_build(ctx, [tgt])
-            if not ok:
-                ctx.note(f"finding witness {tgt[:-1]} no longer checks ({what}): the defect does not reproduce on this tree's generated model")
-            else:
-                ctx.note(f"finding witness {tgt[:-1]} checks: {what}")
-        ctx.cov["checker_cmd"] = saved
     quick = ctx.tier == "quick"
     obs = run_harness(ctx, binp, ["c18", ctx.seed, 2 if quick else 8, 6 if quick else 16])
     oracle(ctx, obs)
@@ -380,17 +387,17 @@ def run(ctx):
             oracle(ctx, obs2)
             if any(v["found_input"] for v in ctx.violations):
                 break
-    ctx.cov["rule"] = ("all 25 paths x (2-4 fixed values + random values on a 1e-4 grid across each field's range) x 3 base setups (default KTP unpoled with auto angle; "
+    ctx.cov["rule"] = ("all 25 paths x (2-4 fixed values + random values on a 1e-4 grid across each field's range) x 4 base setups (default KTP unpoled with auto angle; "
                        "periodically poled KTP with Gaussian apodization, auto period; non-collinear BBO with explicit idler), each applied through a single-point SPDCIter; "
-                       "~95 unknown paths (neighbouring config fields, unit typos, case / character mutations of every valid path) in both positions; "
+                       "plus periodically poled LiNbO3 type-0 with Bartlett apodization, explicit period and an external signal angle; ~95 unknown paths (neighbouring config fields, unit typos, case / character mutations of every valid path) in both positions; "
                        "two-parameter sweeps over 8 path pairs x shapes incl. 1xN, Nx1, 1x1; distinct = distinct (base, path, value bits) / path / (pair, shape)")
     ctx.cov["clauses"] = {
         "only the named field changes (all 25 paths)": "proved over the generated table (record-level frame) + measured on SPDC::as_config",
-        "named field = requested value in the path's unit (22 paths)": "proved against the hand-pinned unit table + measured (4 decimals)",
-        "THz = 1e12 cycles per second (3 paths)": "REFUTED on the current source (Findings/C18_frequency_thz.v) — reported as a violation with input",
+        "named field = requested value in the path's unit (all 25 paths)": "proved against the hand-pinned unit table + measured (4 decimals)",
+        "THz = 1e12 cycles per second (3 paths)": "proved (stored 2 pi v 1e12 rad/s; shown as c/(v 1e12) nm) + measured — was violated before /repo c033754 (finding F8, fixed)",
         "external angle stored as Snell-equivalent internal angle": "proved modulo the Snell oracle; readback through Beam::theta_external measured (1e-5)",
-        "poling period keeps its derived sign": "proved on poled bases modulo the compute_sign oracle + measured; on an UNPOLED base the setter does nothing "
-                                                "(Findings/C18_poling_unpoled.v) — reported as a violation with input",
+        "poling period keeps its derived sign": "proved on every base (poled: apodization kept; unpoled: poling created) modulo the compute_sign oracle + measured — "
+                                                "on an unpoled base the setter did nothing before /repo 7f110fb (finding F9, fixed)",
         "unknown paths rejected": "proved (get_setter p = None <-> p not in the documented list) + measured",
         "nx*ny setups, row-major, first parameter fastest": "proved over the translated Steps2D::value and the shape-pinned iterators + measured",
         "swept spectrum values = individually constructed": "proved structurally (map over the same setups) + measured bit-exactly"}
